@@ -166,6 +166,11 @@ func (fv *FuncVerifier) havocLoop(st *State, li *loopInfo) {
 			// static closure (e.g. cell re-initialised). Keep.
 			continue
 		}
+		if _, esc := st.promoted[c]; esc {
+			hp := st.resolve(&Place{Kind: PLocal, Typ: old.Typ, Cell: c})
+			st.store(hp, st.freshValue("havoc", old.Typ))
+			continue
+		}
 		var hint string
 		if a, ok := c.(*ssa.Alloc); ok {
 			hint = a.Comment
@@ -199,6 +204,7 @@ func (fv *FuncVerifier) step(st *State, b *ssa.BasicBlock, ins ssa.Instruction) 
 			return nil, false
 		}
 		st.cells[x] = enc.zero(et)
+		delete(st.promoted, x)
 		st.regs[x] = Value{Typ: x.Type(), L: []Term{I(0)}, Place: &Place{Kind: PLocal, Typ: et, Cell: x}}
 	case *ssa.Store:
 		addr := st.get(x.Addr)
@@ -975,7 +981,7 @@ func (fv *FuncVerifier) convert(st *State, v Value, from, to types.Type) Value {
 func (fv *FuncVerifier) makeInterface(st *State, v Value, from, to types.Type) Value {
 	tid := fv.enc.typeID(from)
 	if v.Place != nil && v.Place.Kind == PLocal {
-		panic(unsupported("address of local boxed in interface"))
+		v = st.promote(v)
 	}
 	if len(v.L) == 1 && v.L[0].Sort == SInt {
 		return Value{Typ: to, L: []Term{tid, v.L[0]}}
